@@ -10,5 +10,7 @@ def run(ctx):
     regex_cache(ctx)
     from ..scen_misc import record_local_premise
     record_local_premise(ctx)
+    from ..scen_purity import getter_purity
+    getter_purity(ctx)       # a getter that keeps state (cell, thread-local, static) must still be a function of its arguments
     from ..conform import conformance
     conformance(ctx, ['pipeline'])      # the references the obligations are stated against, compared with jawk::go on concrete runs (validates the oracles; never decides)
